@@ -50,7 +50,7 @@ Empty == [plan |-> <<>>, lru |-> <<>>, ent |-> <<>>, fl |-> <<>>, ex |-> <<>>, k
 InitEx == [pc |-> "lookup", idx |-> 1, cur |-> 0, got |-> <<>>, waited |-> {}, unprep |-> NoId, res |-> "none",
            nframes |-> 0, frame |-> NoFrame, started |-> FALSE, rep |-> 0]
 X0 == [scn |-> 0, cap |-> 1, pend |-> <<>>, sends |-> <<>>, lost |-> FALSE, ordOK |-> TRUE, over |-> NoKey,
-       expect |-> NoKey, expId |-> NoId, canc |-> {}, stamp |-> 0, ust |-> <<>>, unp |-> <<>>, unpn |-> <<>>, kinds |-> <<>>]
+       expect |-> NoKey, expId |-> NoId, canc |-> {}, stamp |-> 0, ust |-> <<>>, unp |-> <<>>, unpn |-> <<>>, kinds |-> <<>>, lostn |-> 0]
 NoUnp == [id |-> NoId, cnt |-> 0]
 \* One forgotten statement can legitimately cost an execution TWO UNPREPARED answers in a row (see ExecV), so
 \* "the driver prepares again and the query still succeeds" demands at least two re-preparations in a row.  A
@@ -295,12 +295,14 @@ OnEnd(ev, T, Y) ==
          LET metaBad == kind = "query" /\ x.nframes > 0 /\ ev.meta # x.frame.ids[1] IN
          IF x.pc = "done" /\ x.res = "ok" THEN Res(T, Y, IF metaBad THEN "ResultMetaMismatch" ELSE direct, "")
          ELSE Res(Finish(T, e, "ok"), Y, IF metaBad THEN "ResultMetaMismatch" ELSE direct, "success-unexpected")
-    [] ev.cls = "prepare" ->
+    [] ev.cls \in {"prepare", "timeout", "closed", "garbled"} ->
          IF x.pc = "wait" /\ x.cur # 0 /\ T.fl[x.cur].st \in {"fail", "done_fail"}
          THEN \* the error was delivered, so the flight is published - whether or not remove() was seen
               LET T0 == IF T.fl[x.cur].st = "fail" THEN [T EXCEPT !.fl[x.cur].st = "done_fail"] ELSE T
               IN Res(WaiterWake(T0, e), Y, direct, IF T.fl[x.cur].st = "fail" THEN "published-without-remove" ELSE "")
-         ELSE Res(Finish(T, e, "err_prepare"), Y, direct, "prepare-error-unexplained")
+         ELSE IF ev.cls \in {"timeout", "closed"} /\ Y.lostn > 0
+         THEN Res(Finish(T, e, "err_ctx"), Y, direct, "")   \* collateral of a killed connection / short timeout
+         ELSE Res(Finish(T, e, "err_prepare"), Y, direct, "prepare-error-unexplained-" \o ev.cls)
     [] ev.cls = "arity" ->
          LET T1 == AdvTo(T, e, {"done", "lookup", "send"}) IN
          IF T1.ex[e].pc = "done" /\ T1.ex[e].res = "err_arity" THEN Res(T1, Y, direct, "")
@@ -314,7 +316,7 @@ OnHang(ev, T, Y) ==
   LET e == ev.e IN
   IF Has(T.ex, e) /\ ~Y.lost /\ T.ex[e].pc = "wait" /\ T.ex[e].cur # 0
      /\ T.fl[T.ex[e].cur].st \in {"ok", "fail", "done_ok", "done_fail"}
-  THEN Res(T, Y, "WaiterNotWoken", "")
+  THEN Res(T, Y, "PrepareWaiterNeverReturns", "")
   ELSE Res(T, Y, "", "executor-did-not-return")
 
 OnFinal(ev, T, Y) ==
@@ -346,6 +348,9 @@ StepOf(ev, T, Y) ==
     [] ev.ev = "n_prepare" -> OnPrepare(ev, T, Y)
     [] ev.ev = "n_prep_reply" -> OnPrepReply(ev, T, Y)
     [] ev.ev = "n_forget" -> OnForget(ev, T, Y)
+    \* the node lets a PREPARE go unanswered / kills the connection: the flight stays "sent" until the driver
+    \* gives it up (remove(key) without an answer = failed locally); other requests of the scenario may be hit too
+    [] ev.ev = "n_prep_lost" -> Res(T, [Y EXCEPT !.lostn = @ + 1], "", "")
     [] OTHER -> Res(T, Y, "", "unknown-event")
 
 \* model-based part of the property, evaluated on the state after the step; only what is NEWLY false
